@@ -217,6 +217,19 @@ def _run(fn):
         return "error:" + type(e).__name__, str(e)[:300]
 
 
+def _canon_log(entries):
+    """emitted statements for a report: runs of the same statement kind are shown sorted (the order of the ALTERs among
+    themselves comes from set iteration over objects hashed by id and means nothing to the catalog)"""
+    out, run = [], []
+    for e in entries:
+        if run and run[-1][0] != e[0]:
+            out.extend(sorted(run))
+            run = []
+        run.append(e)
+    out.extend(sorted(run))
+    return out
+
+
 def _ddl_summary(conn, start=0):
     return [k for k, _ in conn.catalog.log[start:]]
 
@@ -239,9 +252,9 @@ def pg_route(md, tabs, n, fks, pre, checkfirst, out, stats):
     mark = len(conn.catalog.log)
     oc, d = _run(lambda: md.create_all(conn, checkfirst=checkfirst))
     if oc != "ok":
-        out.append(("create-%s" % oc, "%s: %s; emitted %r" % (tag, d, conn.catalog.log[mark:])))
+        out.append(("create-%s" % oc, "%s: %s; emitted %r" % (tag, d, _canon_log(conn.catalog.log[mark:]))))
     elif conn.catalog.snapshot() != expected_snapshot(fks, allt):
-        out.append(("create-incomplete", "%s: catalog after create_all lacks objects; emitted %r" % (tag, conn.catalog.log[mark:])))
+        out.append(("create-incomplete", "%s: catalog after create_all lacks objects; emitted %r" % (tag, _canon_log(conn.catalog.log[mark:]))))
     else:
         kinds = _ddl_summary(conn, mark)
         stats["create"] = (kinds.count("create_table"), kinds.count("add_fk"), kinds.count("create_index"))
@@ -261,7 +274,7 @@ def _drop(md, conn, n, fks, present, checkfirst, tag, out, stats):
     allowed = drop_expectation(n, fks, present)
     mark = len(conn.catalog.log)
     oc, d = _run(lambda: md.drop_all(conn, checkfirst=checkfirst))
-    emitted = conn.catalog.log[mark:]
+    emitted = _canon_log(conn.catalog.log[mark:])
     if oc == "ok":
         if conn.catalog.snapshot() != ((), ()):
             out.append(("drop-incomplete", "%s: left %r; emitted %r" % (tag, conn.catalog.snapshot(), emitted)))
